@@ -91,6 +91,7 @@ type DLine struct {
 	Delay    string     `json:"delay"`
 	SendErrs int        `json:"senderrs"`
 	Lossy    bool       `json:"lossy"`
+	After    []int      `json:"after"` // second batch, sent after a cut link had time to be re-dialled
 	Grow     bool       `json:"grow"`
 }
 
@@ -271,6 +272,9 @@ func (r *DRunner) emit(l *DLine) {
 	}
 	if l.Seq == nil {
 		l.Seq = []int{}
+	}
+	if l.After == nil {
+		l.After = []int{}
 	}
 	b, _ := json.Marshal(l)
 	r.Out.Write(b)
@@ -655,11 +659,67 @@ func (r *DRunner) RunCase(c *Case) error {
 			last = n
 			time.Sleep(20 * time.Millisecond)
 		}
+		// after a link was cut: once the pool has been re-dialled, traffic must flow again on every link - a second batch of numbered
+		// messages per pair, all of which must arrive
+		after := map[string][]int{}
+		if c.Delay == "cut" {
+			time.Sleep(300 * time.Millisecond)
+			const extra = 40
+			for i, x := range prs {
+				i, x := i, x
+				doOn(p.A, x.from, func(s *sender) {
+					for k := x.st.N + 1; k <= x.st.N+extra; k++ {
+						if err := s.Send(x.to, mkPayload(fmt.Sprintf("seq:%s:%d", x.key, k), 30)); err != nil {
+							errs[i]++
+						}
+					}
+				})
+			}
+			deadline := time.Now().Add(3 * time.Second)
+			for time.Now().Before(deadline) {
+				rw.mu.Lock()
+				done := true
+				for _, x := range prs {
+					n := 0
+					for _, v := range rw.seqs[x.key] {
+						if v > x.st.N {
+							n++
+						}
+					}
+					if n < extra {
+						done = false
+					}
+				}
+				rw.mu.Unlock()
+				if done {
+					break
+				}
+				time.Sleep(10 * time.Millisecond)
+			}
+			rw.mu.Lock()
+			for _, x := range prs {
+				for _, v := range rw.seqs[x.key] {
+					if v > x.st.N {
+						after[x.key] = append(after[x.key], v)
+					}
+				}
+			}
+			rw.mu.Unlock()
+		}
 		for i, x := range prs {
 			rw.mu.Lock()
-			seq := append([]int{}, rw.seqs[x.key]...)
+			var seq []int
+			for _, v := range rw.seqs[x.key] {
+				if v <= x.st.N {
+					seq = append(seq, v)
+				}
+			}
 			rw.mu.Unlock()
-			r.emit(&DLine{P: c.ID, Ev: "stream", Pair: x.key, Seq: seq, N: x.st.N, FromR: int(x.from.ID % 255), ToR: int(recvsID(x.to, recvs, i) % 255), Delay: c.Delay, SendErrs: errs[i], Pool: c.Pool, Lossy: c.Delay == "cut", Grow: c.GrowPool})
+			a := after[x.key]
+			if a == nil {
+				a = []int{}
+			}
+			r.emit(&DLine{P: c.ID, Ev: "stream", Pair: x.key, Seq: seq, After: a, N: x.st.N, FromR: int(x.from.ID % 255), ToR: int(recvsID(x.to, recvs, i) % 255), Delay: c.Delay, SendErrs: errs[i], Pool: c.Pool, Lossy: c.Delay == "cut", Grow: c.GrowPool})
 		}
 	}
 	r.emit(&DLine{P: c.ID, Ev: "end"})
